@@ -266,7 +266,11 @@ impl Brancher for ObsBrancher {
                 .iter()
                 .map(|v| {
                     let (lb, ub) = (context.lower_bound(*v), context.upper_bound(*v));
-                    format!("x{}:{:?}", v.id, (lb..=ub).filter(|x| context.contains(*v, *x)).collect::<Vec<_>>())
+                    if ub as i64 - lb as i64 > 64 {
+                        format!("x{}:[{}..{}]", v.id, lb, ub)
+                    } else {
+                        format!("x{}:{:?}", v.id, (lb..=ub).filter(|x| context.contains(*v, *x)).collect::<Vec<_>>())
+                    }
                 })
                 .collect();
             eprintln!("  domains {} -> decision {:?}", doms.join(" "), d);
